@@ -4,7 +4,6 @@
 package main
 
 import (
-	"fmt"
 	"sort"
 
 	"k8s.io/gengo/v2/types"
@@ -167,9 +166,12 @@ func (g *Gen) tyGen(o TyOpts, depth int) *TNode {
 			return &TNode{Kind: "chan", Kids: []*TNode{sub()}}
 		case 5:
 			n := &TNode{Kind: "struct"}
+			// field names in declaration order, which is not alphabetical order
+			names := []string{"Zeta", "Alpha", "mid", "F10", "F2", "Beta"}
+			off := g.R.Intn(len(names))
 			for i, k := 0, g.R.Intn(4); i < k; i++ {
 				n.Kids = append(n.Kids, sub())
-				n.MNames = append(n.MNames, fmt.Sprintf("F%d", i))
+				n.MNames = append(n.MNames, names[(off+i)%len(names)])
 			}
 			return n
 		case 6:
